@@ -22,7 +22,7 @@ import (
 
 type c10Assoc struct {
 	Sess     int    `json:"sess"`
-	Trigger  string `json:"trigger"` // none | release | silence | hbfail
+	Trigger  string `json:"trigger"` // none | release | silence | hbfail | vanish (the peer's socket closes right after a request: the agent's answer is refused)
 	JitterMs int    `json:"jitter_ms"`
 	// InFlight: a session request ("mod", "est", "del"; "" = none) is sent LeadMs before the instant at which
 	// the association is expected to be torn down (release datagram, read timeout, heartbeat verdict, Stop()),
@@ -48,7 +48,7 @@ func genC10(t *rapid.T) c10Case {
 	for i := 0; i < n; i++ {
 		// with heartbeats on, a peer that answers them is never silent: the read timeout is only
 		// reachable with heartbeats off, heartbeat failure only with heartbeats on
-		trig := []string{"none", "release", "release", "silence", "silence"}
+		trig := []string{"none", "release", "release", "silence", "silence", "vanish"}
 		if c.HB {
 			trig = []string{"none", "release", "release", "hbfail", "hbfail"}
 		}
@@ -170,6 +170,12 @@ func runC10(c c10Case, ev *Ev) error {
 				default:
 				}
 				now := time.Now()
+				if a.Trigger == "vanish" && !fired && now.After(lastKA) {
+					// one last request, and the socket is gone before the answer arrives
+					fired = true
+					p.Keepalive(0x9fffff)
+					p.Vanish()
+				}
 				if a.Trigger == "hbfail" && !fired && now.After(lastKA) {
 					p.SetOnHB(func(int, uint32) (bool, time.Duration) { return false, 0 })
 					fired = true
@@ -211,7 +217,7 @@ func runC10(c c10Case, ev *Ev) error {
 					}
 					return
 				}
-				silent := (a.Trigger == "silence" || a.Trigger == "hbfail") && now.After(lastKA)
+				silent := (a.Trigger == "silence" || a.Trigger == "hbfail" || a.Trigger == "vanish") && now.After(lastKA)
 				if !silent && now.Sub(lastSent) >= 15*time.Millisecond {
 					seq++
 					lastSent = now
@@ -317,6 +323,11 @@ func runC10(c c10Case, ev *Ev) error {
 				continue
 			}
 			// the association is forgotten: the same peer (same address and port) can associate afresh
+			if a.Trigger == "vanish" {
+				if err := p.P.Reappear(); err != nil {
+					return fmt.Errorf("INFRA: peer cannot bind its old address again: %v", err)
+				}
+			}
 			p.P.SetOnHB(nil)
 			pr := p.P.Probe(0x42, 3*time.Second)
 			if !pr.Alive {
@@ -345,7 +356,7 @@ func TestC10(t *testing.T) {
 		_ = 0
 	}
 	ev := newEv("C10")
-	ev.Rule = "one fresh agent per case (read_timeout 1 s, optionally heartbeats 40 ms / resp_timeout 30 ms / 1 retry) with 0-4 associations of 0-3 sessions; every association gets a trigger {none, Association Release (optionally sent twice), silence past the read timeout, unanswered heartbeats} aimed at one instant with 0-30 ms jitter, optionally with a session request in flight, and optionally Stop() at that instant; run under the race detector; non-trivial = >= 2 triggers, or Stop() with >= 1 live association; distinct by case"
+	ev.Rule = "one fresh agent per case (read_timeout 1 s, optionally heartbeats 40 ms / resp_timeout 30 ms / 1 retry) with 0-4 associations of 0-3 sessions; every association gets a trigger {none, Association Release (optionally sent twice), silence past the read timeout, the peer's socket closing right after a request so that the agent's answer is refused, unanswered heartbeats} aimed at one instant with 0-30 ms jitter, optionally with a session request in flight, and optionally Stop() at that instant; run under the race detector; non-trivial = >= 2 triggers, or Stop() with >= 1 live association; distinct by case"
 	ev.Assume = []string{"the harness does not own the Go scheduler: coincidences are aimed at with generated jitter and many repetitions, windows narrower than the wake-up jitter can be missed",
 		"Stop() must return within 15 s"}
 	runProp(t, ev, "teardown", true, genC10, runC10)
